@@ -154,6 +154,14 @@ func c10Collections(p *ppb.Patient) []c10Coll {
 		{"%protos", []any{shared, &dtpb.HumanName{Family: fstr("Zed")}, shared, &dtpb.HumanName{Family: fstr("Yan")}, p.Name[1]}, true},
 		{"%decs", []any{system.MustParseDecimal("0.10"), system.MustParseDecimal("0.1"), system.MustParseDecimal("0.100"), system.MustParseDecimal("3.0"), system.Integer(3)}, true},
 		{"%mixedc", []any{&dtpb.HumanName{Family: fstr("Zed")}, &dtpb.Period{}, &dtpb.HumanName{Family: fstr("Yan"), Given: []*dtpb.String{fstr("Y")}}, &dtpb.ContactPoint{Value: fstr("555")}, &dtpb.HumanName{Family: fstr("Zed")}}, true},
+		// items of ONE Go type whose choice element holds different types: a projection through the choice names a field
+		// only some of them have, and the ones without come first
+		{"%exts", []any{
+			&dtpb.Extension{Url: &dtpb.Uri{Value: "urn:a"}, Value: &dtpb.Extension_ValueX{Choice: &dtpb.Extension_ValueX_StringValue{StringValue: fstr("s1")}}},
+			&dtpb.Extension{Url: &dtpb.Uri{Value: "urn:b"}, Value: &dtpb.Extension_ValueX{Choice: &dtpb.Extension_ValueX_Quantity{Quantity: &dtpb.Quantity{Value: &dtpb.Decimal{Value: "1"}, Unit: fstr("kg")}}}},
+			&dtpb.Extension{Url: &dtpb.Uri{Value: "urn:c"}, Value: &dtpb.Extension_ValueX{Choice: &dtpb.Extension_ValueX_Boolean{Boolean: &dtpb.Boolean{Value: true}}}},
+			&dtpb.Extension{Url: &dtpb.Uri{Value: "urn:d"}, Value: &dtpb.Extension_ValueX{Choice: &dtpb.Extension_ValueX_Quantity{Quantity: &dtpb.Quantity{Value: &dtpb.Decimal{Value: "2"}, Unit: fstr("mg")}}}},
+		}, true},
 		{"%other", []any{system.Integer(2), system.Integer(9), system.String("Ann"), system.MustParseDecimal("2.5"), fstr("Cy"), &dtpb.HumanName{Family: fstr("Zed")}, system.Integer(2)}, true},
 	}
 }
@@ -439,6 +447,16 @@ func runC10(cfg config) {
 				}
 				_, isMsg := it.(proto.Message)
 				return nil, isMsg
+			}},
+			{"value.unit", func(it any) ([]any, bool) {
+				e, ok := it.(*dtpb.Extension)
+				if !ok {
+					return nil, false
+				}
+				if q := e.GetValue().GetQuantity(); q != nil && q.Unit != nil {
+					return []any{q.Unit}, true
+				}
+				return nil, true
 			}},
 			{"given", func(it any) ([]any, bool) {
 				n, ok := it.(*dtpb.HumanName)
